@@ -213,7 +213,10 @@ def general_model(draw, max_states=5, max_params=5, max_events=5, min_events=0, 
 @st.composite
 def point(draw, m, x_lo=0.1, x_hi=20.0, th_lo=0.05, th_hi=5.0):
     n_s = len(ir.state_names(m))
-    x = [draw(fl(x_lo, x_hi)) for _ in range(n_s)]
+    # mostly ordinary magnitudes; sometimes all states tiny (proportions of a large population, concentrations) or huge (head
+    # counts of a country), where a guard with an absolute threshold or a clipped intermediate would show
+    scale = draw(st.sampled_from([1.0, 1.0, 1.0, 1.0, 1.0, 1e-5, 1e5]))
+    x = [sig(draw(fl(x_lo, x_hi)) * scale, 4) for _ in range(n_s)]
     t = draw(fl(0.0, 20.0))
     theta = [draw(fl(th_lo, th_hi)) for _ in m["params"]]
     return {"x": x, "t": t, "theta": theta}
